@@ -7,6 +7,8 @@ package main
 // compared with the record taken when each tx was first reported committed (c02ref.go), and the
 // same step is sent to the Lean commit state machine (`c02 …` lines) whose answer (assigned id,
 // Alh, error class; committed / precommitted ids and hashes) must equal the implementation's.
+// Maintenance operations (value-log truncation, index flush / compaction / reopen) and the value-log / tx-id
+// inversion episodes they matter for are in c02trunc.go.
 
 import (
 	"context"
@@ -199,6 +201,9 @@ type c02Case struct {
 	repNextOnly bool
 	// after a simulated crash the file state depends on flush timing: oracle only, no model lines
 	noCorr bool
+	// value-log truncation histories (c02trunc.go): counter of Append calls on the value logs (state signal
+	// "the values of a committer are in a value log"), tie of the chunk files with the truncation model
+	vt *c02VTie
 }
 
 func (c *c02Case) replay() interface{} {
@@ -216,7 +221,11 @@ func (c *c02Case) corr(op, impl string) {
 }
 
 func (c *c02Case) open() error {
-	st, err := store.Open(c.dir, c.cfg.options(&c.clock))
+	o := c.cfg.options(&c.clock)
+	if c.vt != nil {
+		o = c.vt.wrapOptions(o)
+	}
+	st, err := store.Open(c.dir, o)
 	if err != nil {
 		return err
 	}
@@ -741,16 +750,27 @@ func (c *c02Case) replicate(kind string, exported []byte, rh refHdr, es []c02Ent
 		c.r.Fail("C02:op:hang", "ReplicateTx did not return within 20s ("+kind+")", c.replay())
 		return
 	}
+	c.replicated(kind, rh, es, skip, hdr, err)
+}
+
+// replicated: what follows a ReplicateTx call that has returned (oracle at the ack, model line, step epilogue).
+func (c *c02Case) replicated(kind string, rh refHdr, es []c02Entry, skip bool, hdr *store.TxHeader, err error) {
+	if err == nil && !c.cfg.ext {
+		cnow, _ := c.st.CommittedAlh()
+		c.hist.verify(c.r, c.st, c.cfg, c.replay, "at-ack")
+		c.hist.ack(c.r, hdr, cnow, c.replay)
+	}
+	c.replicatedLine(kind, rh, es, skip, hdr, err)
+	c.after("rep")
+}
+
+// replicatedLine: the model line of a ReplicateTx call that has returned.
+func (c *c02Case) replicatedLine(kind string, rh refHdr, es []c02Entry, skip bool, hdr *store.TxHeader, err error) {
 	var out string
 	if err == nil {
 		a := hdr.Alh()
 		out = fmt.Sprintf("tx %d %s", hdr.ID, hex32(a))
 		c.spillRisk = false
-		if !c.cfg.ext {
-			cnow, _ := c.st.CommittedAlh()
-			c.hist.verify(c.r, c.st, c.cfg, c.replay, "at-ack")
-			c.hist.ack(c.r, hdr, cnow, c.replay)
-		}
 	} else {
 		out = c02ErrClass(err)
 		if strings.HasPrefix(err.Error(), "panic:") {
@@ -766,7 +786,6 @@ func (c *c02Case) replicate(kind string, exported []byte, rh refHdr, es []c02Ent
 	}
 	c.corr(fmt.Sprintf("rep %s %s %d %s", hdrTokRef(rh), entriesTok(es), b2i(skip), staleTok(hdr)), out)
 	c.r.Eval("rep|"+kind+"|"+strings.SplitN(out, " ", 2)[0]+"|"+c.cfg.label(), true)
-	c.after("rep")
 }
 
 // opRepPrimary: ReplicateTx of a tx exported from the twin (primary) store.
@@ -784,16 +803,30 @@ func (c *c02Case) opRepPrimary() {
 	case x < 25:
 		kind, id = "far", pid+uint64(c.cfg.maxActive)+1
 	}
+	exp, h, es, ok := c.primaryExport(id, pc)
+	if !ok {
+		return
+	}
+	c.replicate("primary."+kind, exp, toRefHdr(h), es, c.rng.Chance(20), pid)
+}
+
+// primaryExport: the twin primary commits up to tx id (if it has not yet) and exports it.
+func (c *c02Case) primaryExport(id, pc uint64) (exp []byte, h *store.TxHeader, es []c02Entry, ok bool) {
 	for pc < id {
 		// the primary commits another tx
 		tx, _ := c.prim.NewWriteOnlyTx(context.Background())
-		n := 1 + c.rng.Intn(c02MinI(c.cfg.maxTxEntries, 4))
-		for _, e := range c.genEntries(n, false) {
+		var ents []c02Entry
+		if c.vt != nil {
+			ents = c.vt.genEntries(c)
+		} else {
+			ents = c.genEntries(1+c.rng.Intn(c02MinI(c.cfg.maxTxEntries, 4)), false)
+		}
+		for _, e := range ents {
 			tx.Set(e.key, nil, e.value)
 		}
 		if _, err := tx.Commit(context.Background()); err != nil {
 			c.r.Fail("C02:harness:primary-commit", err.Error(), c.replay())
-			return
+			return nil, nil, nil, false
 		}
 		pc++
 		c.r.Count("op.primary.commit")
@@ -802,24 +835,24 @@ func (c *c02Case) opRepPrimary() {
 	exp, err := c.prim.ExportTx(id, false, false, tx)
 	if err != nil {
 		c.r.Fail("C02:harness:primary-export", err.Error(), c.replay())
-		return
+		return nil, nil, nil, false
 	}
 	hb, res, vals, err := parseExport(exp)
 	if err != nil {
 		c.r.Fail("C02:history:export-unparsable", err.Error(), c.replay())
-		return
+		return nil, nil, nil, false
 	}
-	h := &store.TxHeader{}
+	h = &store.TxHeader{}
 	h.ReadFrom(hb)
-	es := make([]c02Entry, len(res))
+	es = make([]c02Entry, len(res))
 	for i := range res {
-		es[i] = c02Entry{key: res[i].key, value: vals[i]}
+		es[i] = c02Entry{key: append([]byte{}, res[i].key...), value: append([]byte{}, vals[i]...)}
 		if len(res[i].md) > 0 {
 			c.r.Fail("C02:harness:primary-md", "unexpected kv metadata", c.replay())
-			return
+			return nil, nil, nil, false
 		}
 	}
-	c.replicate("primary."+kind, exp, toRefHdr(h), es, c.rng.Chance(20), pid)
+	return exp, h, es, true
 }
 
 func (c *c02Case) opSync() {
@@ -919,42 +952,6 @@ func (c *c02Case) opSetExt() {
 	c.log("setext %v", b)
 	c.corr(fmt.Sprintf("setext %d", b2i(b)), "ok")
 	c.after("setext")
-}
-
-func (c *c02Case) opMaintenance() {
-	kind := []string{"flush", "flush", "compact", "truncate"}[c.rng.Intn(4)]
-	c.r.Count("op.maint." + kind)
-	var err error
-	func() {
-		defer func() {
-			if e := recover(); e != nil {
-				c.r.Fail("C02:maintenance:panic", fmt.Sprintf("%s: %v", kind, e), c.replay())
-			}
-		}()
-		switch kind {
-		case "flush":
-			err = c.st.FlushIndexes(float32(c.rng.Intn(100)), c.rng.Bool())
-		case "compact":
-			err = c.st.CompactIndexes()
-		case "truncate":
-			cid, _ := c.st.CommittedAlh()
-			if cid == 0 {
-				return
-			}
-			t := 1 + uint64(c.rng.Intn(int(cid)))
-			c.hist.mu.Lock()
-			if t > c.hist.truncBelow {
-				c.hist.truncBelow = t
-			}
-			c.hist.mu.Unlock()
-			err = c.st.TruncateUptoTx(t)
-			c.log("truncate upto %d -> %v", t, err)
-		}
-	}()
-	_ = err
-	c.log("%s", kind)
-	// not a step of the commit machine: the model state must be unchanged
-	c.after(kind)
 }
 
 func (c *c02Case) opClose() {
@@ -1295,6 +1292,10 @@ func (c *c02Case) runConcurrent(writers, perWriter int) {
 			time.Sleep(time.Duration(rrng.Intn(3000)) * time.Microsecond)
 		}
 	}()
+	// maintenance (index flush / compaction, value-log truncation at and below the committed frontier) racing the writers
+	var mwg sync.WaitGroup
+	mwg.Add(1)
+	go c.concurrentMaintenance(c.rng.Fork(), stop, &mwg)
 	for w := 0; w < writers; w++ {
 		wg.Add(1)
 		wr := c.rng.Fork()
@@ -1357,8 +1358,24 @@ func (c *c02Case) runConcurrent(writers, perWriter int) {
 	wg.Wait()
 	close(stop)
 	rwg.Wait()
+	mwg.Wait()
 	c.st.Sync()
 	n := c.hist.verify(c.r, c.st, c.cfg, c.replay, "concurrent-end")
+	// cuts over the finished history (the schedule of the writers decided which values lie where)
+	if n > 0 {
+		cuts := []uint64{1 + uint64(c.rng.Intn(int(n))), n}
+		if n > 1 {
+			cuts = append(cuts, n-1)
+		}
+		sort.Slice(cuts, func(i, j int) bool { return cuts[i] < cuts[j] })
+		for _, cut := range cuts {
+			c.hist.noteTrunc(cut, n, true)
+			err := c.st.TruncateUptoTx(cut)
+			c.log("truncate upto %d -> %v", cut, err)
+			c.r.Count("concurrent.end.truncate." + c02TruncClass(err))
+			c.hist.verify(c.r, c.st, c.cfg, c.replay, "concurrent-end-truncated")
+		}
+	}
 	// acks: distinct ids, each equal to the committed tx of that id
 	seen := map[uint64]bool{}
 	sort.Slice(acks, func(i, j int) bool { return acks[i].hdr.ID < acks[j].hdr.ID })
@@ -1435,6 +1452,14 @@ func runC02(r *hx.Result, rng *hx.Rng, thorough bool, replay string) error {
 	mk := func(kind string) *c02Case {
 		crng := rng.Fork()
 		c := &c02Case{r: r, rng: crng, cfg: genC02Cfg(crng), kind: kind, hist: &c02Hist{}, seed: r.Seed}
+		if strings.HasPrefix(kind, "trunc") {
+			// value-log truncation histories (c02trunc.go)
+			c.cfg = genC02TruncCfg(crng)
+			c.vt = &c02VTie{tie: true}
+		}
+		if kind == "concurrent" && crng.Chance(50) {
+			c.cfg = genC02TruncCfg(crng)
+		}
 		c.caseID = r.NextCase()
 		return c
 	}
@@ -1553,10 +1578,30 @@ func runC02(r *hx.Result, rng *hx.Rng, thorough bool, replay string) error {
 		c := mk("stale-tail-replica")
 		runCase(c, func() { c.runStaleTail(4) })
 	}
+	// maintenance histories: inversion episodes + truncation / index maintenance / restart, own and replica flavour
+	for k := 0; k < 3; k++ {
+		c := mk("trunc")
+		runCase(c, func() { c.runTrunc(14) })
+	}
+	for k := 0; k < 2; k++ {
+		c := mk("trunc-replica")
+		runCase(c, func() { c.runTrunc(12) })
+	}
 	i := 0
 	for time.Since(start) < budget && !abortRun {
 		i++
 		switch {
+		case i%5 == 0:
+			kind := "trunc"
+			if i%10 == 0 {
+				kind = "trunc-replica"
+			}
+			c := mk(kind)
+			n := 12 + c.rng.Intn(14)
+			if thorough {
+				n *= 2
+			}
+			runCase(c, func() { c.runTrunc(n) })
 		case i%3 == 1 && i%2 == 0:
 			kind := "stale-tail"
 			if i%12 == 10 {
@@ -1597,7 +1642,7 @@ func runC02(r *hx.Result, rng *hx.Rng, thorough bool, replay string) error {
 	r.Extra["history_rereads"] = histReads
 	r.Extra["tx_reads"] = txReads
 	r.Extra["steps"] = steps
-	r.Extra["cases"] = i + 16
+	r.Extra["cases"] = i + 21
 	if r.Distribution["answer.own.tx"] == 0 || r.Distribution["op.reopen"] == 0 || r.Distribution["case.concurrent"] == 0 {
 		if onlyCase < 0 && !abortRun && os.Getenv("VERIF_C02_KIND") == "" {
 			r.Inconclusive = append(r.Inconclusive, "generator collapsed: no successful commits / reopen / concurrent cases")
